@@ -49,7 +49,7 @@ def _spin_range(a, b):
 def _spin_int(x):
     if isinstance(x, int):
         return x
-    return int(x + 0.1)
+    return int(round(x))
 
 
 @functools.total_ordering
